@@ -44,6 +44,7 @@ PURE = re.compile("|".join([
     r"regex::.*", r"once_cell::.*", r"core::intrinsics::.*", r"std::intrinsics::.*", r"core::num::<impl \w+>::\w+", r"std::process::.*abort",
     r"patricia_tree::.*", r".*treebitmap::.*", r"arc_swap::.*", r"std::sync::(Mutex|RwLock)::<T>::(new|lock|read|write|get_mut)", r"std::sync::poison::.*", r"log::.*", r"tokio::.*", r"tokio_util::.*", r"std::future::.*", r"std::task::.*", r"std::pin::.*",
     r"std::ops::(Add|Sub|Mul|Shl|Shr|BitXor|AddAssign|SubAssign)::\w+", r"prost::.*", r"prost_types::.*", r"std::ops::Index::index|std::ops::IndexMut::index_mut",
+    r"tonic::Status::\w+", r"tonic::Code::\w+", r"core::f(32|64)::<impl f(32|64)>::\w+", r"core::str::<impl str>::\w+", r"std::array::from_fn",
     r"std::error::.*", r"std::ops::ControlFlow::.*", r"std::ops::Bound::.*", r"std::ops::RangeBounds::.*", r"std::ascii::.*", r"core::ascii::.*", r"std::env::.*", r"std::num::.*", r"std::option::Option::<T>::(xor|and|get_or_insert|is_some_and|inspect|unzip|ok_or|as_slice)",
 ]))
 
@@ -72,6 +73,96 @@ def havoc_place(interp, st, tgt):
         del st.vals[k]
 
 
+_SIZES = {"u8": 1, "i8": 1, "bool": 1, "u16": 2, "i16": 2, "u32": 4, "i32": 4, "f32": 4, "char": 4, "u64": 8, "i64": 8, "usize": 8, "isize": 8, "f64": 8, "u128": 16}
+
+
+def _split_top(s):
+    depth, cur, out = 0, "", []
+    for ch in s:
+        if ch in "([<":
+            depth += 1
+        elif ch in ")]>":
+            depth -= 1
+        if ch == "," and depth == 0:
+            out.append(cur.strip())
+            cur = ""
+        else:
+            cur += ch
+    if cur.strip():
+        out.append(cur.strip())
+    return out
+
+
+def type_size_lb(prog, t, depth=0):
+    """Lower bound of size_of for a rendered type: scalars exactly, Vec/String 24, tuples/structs the sum of their
+    fields' bounds, enums and Option the largest variant (a lower bound whatever the layout optimiser does)."""
+    t = t.strip()
+    if t in _SIZES:
+        return _SIZES[t]
+    if depth > 5:
+        return 0
+    if t.startswith(("std::vec::Vec<", "std::string::String")):
+        return 24
+    if t.startswith(("&", "*const", "*mut", "std::boxed::Box<", "std::sync::Arc<")):
+        return 8
+    mt = re.fullmatch(r"\((.*)\)", t)
+    if mt:
+        return sum(type_size_lb(prog, x, depth + 1) for x in _split_top(mt.group(1)))
+    ma = re.fullmatch(r"\[(.+); (\d+)(_usize)?\]", t)
+    if ma:
+        return type_size_lb(prog, ma.group(1), depth + 1) * int(ma.group(2))
+    mo = re.fullmatch(r"std::option::Option<(.*)>", t)
+    if mo:
+        return type_size_lb(prog, mo.group(1), depth + 1)
+    if prog is None or "<" in t:
+        return 0
+    byname = prog.__dict__.get("_adt_by_name")
+    if byname is None:
+        byname = prog.__dict__["_adt_by_name"] = {a["name"]: a for a in prog.adts.values()}
+    a = byname.get(t)
+    if not a or a["kind"] == "union":
+        return 0
+    return max([sum(type_size_lb(prog, f["ty"], depth + 1) for f in v["fields"]) for v in a["variants"]] or [0])
+
+
+def _elem_size(ga, prog=None):
+    """Lower bound of size_of::<T>() for the element type named first in the generic args (1 if unknown)."""
+    if prog is not None:
+        m0 = re.match(r"\[(.*)\]$", ga or "")
+        if m0:
+            parts = _split_top(m0.group(1))
+            if parts:
+                return max(1, type_size_lb(prog, parts[0]))
+    m = re.match(r"\[(.*)\]$", ga or "")
+    if not m:
+        return 1
+    first = m.group(1)
+    # first generic argument up to a top-level comma
+    depth, cut = 0, len(first)
+    for i, ch in enumerate(first):
+        if ch in "([<":
+            depth += 1
+        elif ch in ")]>":
+            depth -= 1
+        elif ch == "," and depth == 0:
+            cut = i
+            break
+    t = first[:cut].strip()
+    if t in _SIZES:
+        return _SIZES[t]
+    mt = re.fullmatch(r"\((.*)\)", t)
+    if mt:
+        parts = [x.strip() for x in mt.group(1).split(",")]
+        if parts and all(x in _SIZES for x in parts):
+            return max(1, sum(_SIZES[x] for x in parts))
+    ma = re.fullmatch(r"\[(\w+); (\d+)(_usize)?\]", t)
+    if ma and ma.group(1) in _SIZES:
+        return max(1, _SIZES[ma.group(1)] * int(ma.group(2)))
+    if t.startswith("std::vec::Vec<") or t.startswith("std::string::String"):
+        return 24
+    return 1
+
+
 def referent(interp, st, o):
     """Canonical place an operand refers to (following a reference held in a temporary)."""
     p = o.get("c") or o.get("m")
@@ -82,7 +173,7 @@ def referent(interp, st, o):
         # a reference to a local that itself holds a reference to a tracked buffer (`&mut &[u8]`)
         for _ in range(3):
             m = re.fullmatch(r"L(\d+)", r)
-            if m and int(m.group(1)) in st.refs and interp.lty(int(m.group(1))).startswith("&") and not st.refs[int(m.group(1))].startswith(("iter:", "chunks:")):
+            if m and int(m.group(1)) in st.refs and interp.lty(int(m.group(1))).startswith("&") and not st.refs[int(m.group(1))].startswith(("iter:", "chunks:", "enum:")):
                 r = st.refs[int(m.group(1))]
             else:
                 break
@@ -159,11 +250,13 @@ def apply_model(interp, st, t, b, record):
     # ---------------------------------------------------------------- lengths
     if re.fullmatch(r"(core::slice::<impl \[T\]>|std::vec::Vec::<T(, A)?>|bytes::BytesMut|bytes::Bytes|std::string::String|core::str::<impl str>|std::collections::VecDeque::<T(, A)?>)::len", nm) or nm.endswith("bytes::Buf::remaining"):
         r = referent(interp, st, args[0])
-        dt = fresh_dest(0, LEN_MAX)
+        # a Vec<T>/[T] holds at most isize::MAX bytes: len <= isize::MAX / size_of::<T>()
+        esz = _elem_size(ga, interp.prog)
+        dt = fresh_dest(0, LEN_MAX // esz)
         if r and dt:
             lt = _len_term(r)
             st.z.eq(dt, lt, 0)
-            st.z.set_range(lt, 0, LEN_MAX)
+            st.z.set_range(lt, 0, LEN_MAX // esz)
         return
     if re.fullmatch(r"(core::slice::<impl \[T\]>|std::vec::Vec::<T(, A)?>|bytes::BytesMut|bytes::Bytes|std::string::String|core::str::<impl str>)::is_empty", nm):
         r = referent(interp, st, args[0])
@@ -186,6 +279,13 @@ def apply_model(interp, st, t, b, record):
         fresh_dest()
         if r and dest and not dest.get("p"):
             st.refs[dest["l"]] = "iter:" + r
+        return
+    if nm == "std::iter::Iterator::enumerate":
+        al = operand_local(args[0])
+        keep = st.refs.get(al) if al is not None else None
+        fresh_dest()
+        if keep and keep.startswith("iter:") and dest and not dest.get("p"):
+            st.refs[dest["l"]] = "enum:" + keep[5:]
         return
     if nm in ("core::slice::<impl [T]>::chunks_exact", "core::slice::<impl [T]>::chunks"):
         n = interp.range_of(st, args[1])
@@ -301,6 +401,21 @@ def apply_model(interp, st, t, b, record):
             havoc_mut_args()
         return
 
+    # ---------------------------------------------------------------- infallible writers (Vec<u8> / Cursor<Vec<u8>> / BytesMut never fail)
+    if re.fullmatch(r"byteorder::WriteBytesExt::write_\w+|std::io::Write::(write_all|flush)", nm):
+        V = r"std::vec::Vec<u8(, std::alloc::Global)?>"
+        infallible = bool(re.match(r"\[(&mut )?(std::io::Cursor<(&mut )?%s>|%s|bytes::BytesMut|bytes::buf::Writer<.*>)(,|\])" % (V, V), ga or ""))
+        r = referent(interp, st, args[0])
+        if r:
+            for tt in ("pos(%s)" % r, _len_term(r), "len(inner(%s))" % r):
+                lo_ = st.z.lo(tt)
+                st.z.kill(tt)
+                st.z.set_range(tt, max(lo_, 0) if lo_ != -INF else 0, None)
+        dt = fresh_dest()
+        if dt and infallible:
+            st.tags[dt] = OKN
+        return
+
     # ---------------------------------------------------------------- tag-preserving wrappers
     if nm in ("std::ops::Try::branch", "std::result::Result::<T, E>::map_err", "std::result::Result::<T, E>::map", "std::option::Option::<T>::map",
               "std::result::Result::<T, E>::ok", "std::option::Option::<T>::ok_or", "std::option::Option::<T>::ok_or_else", "std::option::Option::<T>::copied", "std::option::Option::<T>::cloned",
@@ -367,7 +482,11 @@ def apply_model(interp, st, t, b, record):
             ob("index", desc, ok, "index %s < %s ∈ [%s, %s]" % (interp._show_term(st, ti) if ti else "?", interp.pretty(lt or "?"), st.z.lo(lt) if lt else "?", st.z.hi(lt) if lt else "?"))
             if ti and lt and ti[0] != "0":
                 st.z.add(ti[0], lt, -1)
+            elif ti and lt:
+                st.z.set_range(lt, ti[1] + 1, None)
             fresh_dest()
+            if ti and ti[0] == "0" and base and dest and not dest.get("p"):
+                st.refs[dest["l"]] = "%s[%d]" % (base, ti[1])      # the same element every time it is indexed
             return
         rng = "L%d" % il if il is not None else None
         start = end = None
@@ -385,7 +504,7 @@ def apply_model(interp, st, t, b, record):
             elif "RangeInclusive<" in ity or "RangeToInclusive<" in ity:
                 start = end = None
             if start and end:
-                ok = st.z.implies(start, end, 0) and st.z.implies(end, lt, 0)
+                ok = (st.z.implies(start, end, 0) or (_lin_diff(interp, st, end, start) or -1) >= 0) and st.z.implies(end, lt, 0)
                 by = "%s..%s within %s" % (_rng(interp, st, start), _rng(interp, st, end), _rng(interp, st, lt))
             elif start:
                 ok = st.z.implies(start, lt, 0)
@@ -415,6 +534,8 @@ def apply_model(interp, st, t, b, record):
                             okd = False
                     if okd and len(ve) == 1:
                         st.z.eq(nl, ve[0], le[1] - ls_[1])
+                    elif okd and not ve and le[1] - ls_[1] >= 0:
+                        st.z.set_range(nl, le[1] - ls_[1], le[1] - ls_[1])
                 d1 = st.z.dist(end, start)
                 d2 = st.z.dist(start, end)
                 if d1 != INF:
@@ -426,6 +547,8 @@ def apply_model(interp, st, t, b, record):
             elif start:
                 # len = lt - start
                 st.z.add(nl, lt, -st.z.lo(start) if st.z.lo(start) != -INF else 0)
+                if st.z.hi(start) != INF:
+                    st.z.add(lt, nl, st.z.hi(start))
                 st.z.add(start, lt, 0)
             elif end:
                 st.z.eq(nl, end, 0)
@@ -494,6 +617,18 @@ def apply_model(interp, st, t, b, record):
             lo_n = n[1] if n and n[0] == "0" else (st.z.lo(n[0]) if n else 0)
             st.z.kill(lt)
             st.z.set_range(lt, 0, LEN_MAX)
+        return
+    if re.fullmatch(r"std::vec::Vec::<T(, A)?>::extend_from_slice", nm):
+        r, a = referent(interp, st, args[0]), referent(interp, st, args[1])
+        if r:
+            lt = _len_term(r)
+            lo, hi = st.z.lo(lt), st.z.hi(lt)
+            alo, ahi = (st.z.lo(_len_term(a)), st.z.hi(_len_term(a))) if a else (0, INF)
+            st.z.kill(lt)
+            nlo = max(lo, 0) + max(alo, 0) if lo != -INF else max(alo, 0)
+            nhi = hi + ahi if (hi != INF and ahi != INF) else LEN_MAX
+            st.z.set_range(lt, nlo, min(nhi, LEN_MAX))
+        fresh_dest()
         return
     if re.fullmatch(r"std::vec::Vec::<T(, A)?>::(extend_from_slice|append|extend|resize|reserve|retain|retain_mut|dedup\w*|truncate|pop|sort\w*)", nm) or re.fullmatch(r"bytes::(BytesMut|BufMut)::\w+", nm):
         r = referent(interp, st, args[0])
@@ -620,7 +755,7 @@ def apply_model(interp, st, t, b, record):
         al = operand_local(args[0])
         keep_ref = st.refs.get(al) if al is not None else None
         dt = fresh_dest()
-        if keep_ref and keep_ref.startswith(("chunks:", "iter:")) and dest and not dest.get("p"):
+        if keep_ref and keep_ref.startswith(("chunks:", "iter:", "enum:")) and dest and not dest.get("p"):
             st.refs[dest["l"]] = keep_ref
         if r and dt:
             interp.copy_subterms(st, r, dt)
@@ -632,6 +767,13 @@ def apply_model(interp, st, t, b, record):
         r = referent(interp, st, args[0])
         dt = fresh_dest()
         mm = re.fullmatch(r"L(\d+)", r or "")
+        if mm and dt and st.refs.get(int(mm.group(1)), "").startswith("enum:"):
+            # Enumerate<slice::Iter>: the index of a yielded element is below the slice's length
+            src = st.refs[int(mm.group(1))][5:]
+            pay = dt + ".v1.f0.f0"
+            st.z.kill(pay)
+            st.z.set_range(pay, 0, LEN_MAX)
+            st.z.add(pay, _len_term(src), -1)
         if mm and dt and st.refs.get(int(mm.group(1)), "").startswith("chunks:"):
             n = int(st.refs[int(mm.group(1))][7:])
             st.z.set_range("len(%s.v1.f0)" % dt, n, n)
@@ -673,6 +815,15 @@ def apply_model(interp, st, t, b, record):
     ob("unmodelled", nm[:90], False, "external callee has no model (fail closed)")
     havoc_mut_args()
     fresh_dest()
+
+
+def _lin_diff(interp, st, a, b):
+    """a - b when both have linear forms over the same variables (None otherwise)."""
+    la = st.lin.get(a) or ((interp.rep(st, a),), 0)
+    lb = st.lin.get(b) or ((interp.rep(st, b),), 0)
+    if sorted(la[0]) != sorted(lb[0]):
+        return None
+    return la[1] - lb[1]
 
 
 def _rooted_t(term, prefix):
@@ -751,11 +902,16 @@ def _local_call(interp, st, t, b, record, key):
                 st.z.set_range(tgt + ".f1", 0, LEN_MAX)
     lo = hi = None
     s = summ.get(key) or {}
+    sp = _specialised(interp, st, key, args)
+    if sp is not None:
+        s = sp
     if "" in s.get("ranges", {}):
         lo, hi, _ = s["ranges"][""]
     dt = None
     if dest is not None:
         dt = interp.assign_fresh(st, dest, lo, hi)
+    if dt and s.get("tags"):
+        st.tags[dt] = frozenset(s["tags"])
     if dt:
         for sfx, (l2, h2, vs) in s.get("ranges", {}).items():
             if sfx == "":
@@ -772,6 +928,53 @@ def _local_call(interp, st, t, b, record, key):
                 post.append((ta, tb, c))
         if post and dest is not None and not dest.get("p"):
             st.ghost[dest["l"]] = ("fact", tuple(post))
+
+
+def _specialised(interp, st, key, args):
+    """Summary of a small workspace callee re-analysed with its constant integer arguments bound (one level of
+    context sensitivity: `Attribute::new_with_value(Attribute::ORIGIN, 0)` is Some because canonical_flags(1) is)."""
+    prog = interp.prog
+    consts = []
+    for i, a in enumerate(args):
+        tt = interp.term_of_operand(st, a)
+        if tt and tt[0] == "0" and isinstance(tt[1], int):
+            consts.append((i + 1, tt[1]))
+        else:
+            l = operand_local(a)
+            if l is not None:
+                lo, hi = st.z.lo("L%d" % l), st.z.hi("L%d" % l)
+                if lo == hi and lo not in (INF, -INF):
+                    consts.append((i + 1, int(lo)))
+    if not consts:
+        return None
+    bk = prog.body_key(key) if hasattr(prog, "body_key") else key
+    f = prog.ix.get(key)
+    if f is None or f.get("nblocks", 0) > 120 or f.get("kind") == "coroutine":
+        return None
+    depth = getattr(prog, "_absint_spec_depth", 0)
+    if depth >= 3:
+        return None
+    cache = prog.__dict__.setdefault("_absint_spec", {})
+    ck = (key, tuple(consts), interp.profile)
+    if ck in cache:
+        return cache[ck]
+    cache[ck] = None            # recursion guard
+    from .absint import Interp, summarise
+    prog._absint_spec_depth = depth + 1
+    try:
+        assume = []
+        for i, v in consts:
+            assume += [("L%d" % i, "0", v), ("0", "L%d" % i, -v)]
+        it = Interp(prog, key, interp.profile, assume=assume)
+        if len(it.fv.blocks) > 120:
+            return None
+        it.run()
+        cache[ck] = summarise(it) if it.converged else None
+    except Exception:
+        cache[ck] = None
+    finally:
+        prog._absint_spec_depth = depth
+    return cache[ck]
 
 
 def _subst(interp, st, term, args):
